@@ -897,7 +897,7 @@ theorem cbsFor_processUpdate {a : Auth} (hnd : (allWatchers a.res).Nodup) (srv :
       rw [cbsFor_flatMap_not_mem _ h]
 
 /-- the ghost of a watcher agrees with the resource it watches -/
-def AgreeR (g : WG) (r : RState) : Prop := g.holds = r.cache ∧ (r.err.isSome = true → g.nack = true)
+def AgreeR (g : WG) (r : RState) : Prop := g.holds = r.cache ∧ (∀ t v, r.err = some (t, v) → g.nack = some t)
 
 /-- one resource, one update: no forbidden callback, and agreement is kept -/
 theorem agree_upd {typ ver : String} {ign : Bool} {es : List (String × Upd)} {q : Key × RState} {g : WG}
@@ -913,18 +913,24 @@ theorem agree_upd {typ ver : String} {ign : Bool} {es : List (String × Upd)} {q
         rw [updKinds_ok ht he, (upd_present ht he).2]
         simp only [updOne, onOk]
         by_cases hc : q.2.cache = some c
-        · by_cases herr : q.2.err.isSome = true
-          · have hn := h2 herr
-            simp [hc, herr, okSeq, WG.dup, WG.apply, AgreeR, hn]
-          · simp [hc, herr, okSeq, AgreeR, h1]
+        · cases herr : q.2.err with
+          | some tv =>
+            have hn := h2 tv.1 tv.2 (by rw [herr])
+            simp [hc, okSeq, WG.dup, WG.apply, AgreeR, hn]
+          | none => simp [hc, okSeq, AgreeR, h1]
         · have : ¬ g.holds = some c := by rw [h1]; exact hc
           simp [hc, okSeq, WG.dup, WG.apply, AgreeR, this]
       | bad t =>
         rw [updKinds_bad ht he, (upd_present ht he).2]
         simp only [updOne, onBad]
         by_cases hd : q.2.err.map (·.1) = some t
-        · have : q.2.err.isSome = true := by cases hq : q.2.err <;> simp [hq] at hd ⊢
-          simp [hd, okSeq, AgreeR, h1, h2 this]
+        · cases hq : q.2.err with
+          | none => simp [hq] at hd
+          | some tv =>
+            simp only [hq, Option.map_some, Option.some.injEq] at hd
+            have hn := h2 tv.1 tv.2 (by rw [hq])
+            simp [hq, hd, okSeq, AgreeR, h1]
+            rw [← hd]; exact hn
         · cases hc : q.2.cache with
           | none => simp [hd, hc, okSeq, WG.dup, WG.apply, AgreeR]
           | some c => simp [hd, hc, okSeq, WG.dup, WG.apply, AgreeR, h1]
@@ -1166,5 +1172,251 @@ theorem ghost_step {a : Auth} {G : Nat → WG} {e : AEv} (hi : AInv a) (hg : Agr
           intro p' hp' w hw
           change p' ∈ a.res.filter (·.1 ≠ k) at hp'
           exact hg p' (List.mem_filter.mp hp').1 w hw
+
+
+theorem amb_mem_updKinds {typ ver : String} {ign : Bool} {es : List (String × Upd)} {p : Key × RState} {er : Err} :
+    CbKind.ambErr er ∈ updKinds typ ver ign es p ↔
+      p.1.typ = typ ∧ p.2.cache.isSome = true ∧
+      ∃ t, entLookup es p.1.name = some (.bad t) ∧ er = .nack t ∧ p.2.err.map (·.1) ≠ some t := by
+  by_cases ht : p.1.typ = typ
+  · cases he : entLookup es p.1.name with
+    | some u =>
+      cases u with
+      | ok c => rw [updKinds_ok ht he]; split <;> simp [ht]
+      | bad t =>
+        rw [updKinds_bad ht he]
+        by_cases hd : p.2.err.map (·.1) = some t
+        · simp [hd, ht]
+        · cases hc : p.2.cache with
+          | none => simp [hd, hc, ht]
+          | some c =>
+            simp only [hd, ↓reduceIte, hc, Option.isNone_some, Bool.false_eq_true, List.mem_singleton,
+              CbKind.ambErr.injEq, ht, Option.isSome_some, Option.some.injEq, Upd.bad.injEq, true_and]
+            constructor
+            · rintro rfl; exact ⟨t, rfl, rfl, hd⟩
+            · rintro ⟨t', rfl, rfl, _⟩; rfl
+    | none => rw [updKinds_absent ht he]; split <;> simp [ht]
+  · rw [(upd_other ht).1]; simp [ht]
+
+theorem res_mem_updKinds {typ ver : String} {ign : Bool} {es : List (String × Upd)} {p : Key × RState} {er : Err} :
+    CbKind.resErr er ∈ updKinds typ ver ign es p ↔
+      p.1.typ = typ ∧
+      ((p.2.cache = none ∧ ∃ t, entLookup es p.1.name = some (.bad t) ∧ er = .nack t ∧ p.2.err.map (·.1) ≠ some t) ∨
+       (er = .notFound ∧ entLookup es p.1.name = none ∧ sotw typ = true ∧ p.2.cache.isSome = true ∧
+          p.2.status ≠ .notExist ∧ ign = false)) := by
+  by_cases ht : p.1.typ = typ
+  · cases he : entLookup es p.1.name with
+    | some u =>
+      cases u with
+      | ok c => rw [updKinds_ok ht he]; split <;> simp [ht]
+      | bad t =>
+        rw [updKinds_bad ht he]
+        by_cases hd : p.2.err.map (·.1) = some t
+        · simp [hd, ht]
+        · cases hc : p.2.cache with
+          | some c => simp [hd, hc, ht]
+          | none =>
+            simp only [hd, ↓reduceIte, hc, Option.isNone_none, List.mem_singleton, CbKind.resErr.injEq, ht,
+              Option.some.injEq, Upd.bad.injEq, true_and, reduceCtorEq, false_and, and_false, or_false]
+            constructor
+            · rintro rfl; exact ⟨t, rfl, rfl, hd⟩
+            · rintro ⟨t', rfl, rfl, _⟩; rfl
+    | none =>
+      rw [updKinds_absent ht he]
+      by_cases hcond : sotw typ = true ∧ p.2.cache.isSome = true ∧ p.2.status ≠ .notExist ∧ ign = false
+      · rw [if_pos hcond]
+        simp only [List.mem_singleton, CbKind.resErr.injEq]
+        constructor
+        · rintro rfl; exact ⟨ht, Or.inr ⟨rfl, trivial, hcond⟩⟩
+        · rintro ⟨_, ⟨_, t, h, _⟩ | ⟨h, _⟩⟩
+          · simp at h
+          · exact h
+      · rw [if_neg hcond]
+        simp only [List.not_mem_nil, false_iff, not_and, not_or]
+        intro _
+        constructor
+        · rintro _ ⟨t, h, _⟩; simp at h
+        · intro _ _ h1 h2 h3 h4; exact hcond ⟨h1, h2, h3, h4⟩
+  · rw [(upd_other ht).1]; simp [ht]
+
+theorem amb_mem_propagate {a : Auth} {w : Nat} {er : Err} :
+    (⟨w, .ambErr er⟩ : Cb) ∈ propagate a ↔ ∃ p ∈ a.res, w ∈ p.2.watchers ∧ p.2.cache.isSome = true ∧ er = .conn := by
+  simp only [propagate, List.mem_flatMap, mem_bcast, List.mem_singleton]
+  constructor
+  · rintro ⟨p, hp, hw, hk⟩
+    cases hc : p.2.cache with
+    | none => simp [hc] at hk
+    | some c => simp [hc] at hk; exact ⟨p, hp, hw, by simp [hc], hk⟩
+  · rintro ⟨p, hp, hw, hc, rfl⟩
+    refine ⟨p, hp, hw, ?_⟩
+    cases hcc : p.2.cache with
+    | none => simp [hcc] at hc
+    | some c => simp
+
+theorem res_mem_propagate {a : Auth} {w : Nat} {er : Err} :
+    (⟨w, .resErr er⟩ : Cb) ∈ propagate a ↔ ∃ p ∈ a.res, w ∈ p.2.watchers ∧ p.2.cache = none ∧ er = .conn := by
+  simp only [propagate, List.mem_flatMap, mem_bcast, List.mem_singleton]
+  constructor
+  · rintro ⟨p, hp, hw, hk⟩
+    cases hc : p.2.cache with
+    | none => simp [hc] at hk; exact ⟨p, hp, hw, hc, hk⟩
+    | some c => simp [hc] at hk
+  · rintro ⟨p, hp, hw, hc, rfl⟩
+    exact ⟨p, hp, hw, by simp [hc]⟩
+
+/-- when a stream failure is propagated to the watchers rather than answered by a fallback -/
+theorem handleFailure_cbs (a : Auth) (srv : Nat) (after : Bool) :
+    (handleFailure a srv after).cbs =
+      if after = false ∧ (uncachedWatch a = false ∨ nextServer a srv = none) then propagate a else [] := by
+  unfold handleFailure
+  cases after
+  · by_cases hu : uncachedWatch a = true
+    · cases hn : nextServer a srv with
+      | none => simp [hu, hn]
+      | some i => simp [hu, hn, fallbackTo]
+    · simp [hu]
+  · simp
+
+theorem mem_initialKinds_amb {r : RState} {er : Err} :
+    CbKind.ambErr er ∈ initialKinds r ↔
+      r.cache.isSome = true ∧ r.status = .nacked ∧ ∃ t v, r.err = some (t, v) ∧ er = .nack t := by
+  unfold initialKinds
+  cases hc : r.cache <;> cases hs : r.status <;> cases he : r.err <;> simp
+  rename_i tv
+  obtain ⟨t, v⟩ := tv
+  constructor
+  · rintro rfl; exact ⟨t, ⟨v, rfl⟩, rfl⟩
+  · rintro ⟨t', ⟨v', h⟩, rfl⟩
+    simp only [Prod.mk.injEq] at h
+    rw [h.1]
+
+theorem handleUpdate_cbs_iff (a : Auth) (srv : Nat) (typ ver : String) (es : List (String × Upd)) (cb : Cb) :
+    cb ∈ (handleUpdate a srv typ ver es).cbs ↔
+      (revert a srv).2.2 = true ∧ ∃ p ∈ a.res, cb.w ∈ p.2.watchers ∧ cb.k ∈ updKinds typ ver (ignOf a srv) es p := by
+  rcases handleUpdate_shape a srv typ ver es with ⟨hf, h⟩ | ⟨ht, g, hg, _, _, hcb⟩
+  · rw [h]; simp [hf]
+  · rw [hcb]
+    simp only [ht, true_and]
+    constructor
+    · rintro ⟨p, hp, hw, hk⟩; exact ⟨p, hp, hw, by rw [← updKinds_sameCore (sameCore_of_g hg p)]; exact hk⟩
+    · rintro ⟨p, hp, hw, hk⟩; exact ⟨p, hp, hw, by rw [updKinds_sameCore (sameCore_of_g hg p)]; exact hk⟩
+
+theorem mem_initialKinds_res {r : RState} {er : Err} :
+    CbKind.resErr er ∈ initialKinds r ↔
+      (r.status = .nacked ∧ r.cache = none ∧ ∃ t v, r.err = some (t, v) ∧ er = .nack t) ∨
+      (r.status = .notExist ∧ er = .notFound) := by
+  unfold initialKinds
+  cases hc : r.cache <;> cases hs : r.status <;> cases he : r.err <;> simp
+  rename_i tv
+  obtain ⟨t, v⟩ := tv
+  constructor
+  · rintro rfl; exact ⟨t, ⟨v, rfl⟩, rfl⟩
+  · rintro ⟨t', ⟨v', h⟩, rfl⟩
+    simp only [Prod.mk.injEq] at h
+    rw [h.1]
+
+/-- after a ResourceError the watcher's resource has no cached value; after an AmbientError it still has -/
+theorem error_step {a : Auth} {e : AEv} {w : Nat} {er : Err} (hi : AInv a) :
+    ((⟨w, .resErr er⟩ : Cb) ∈ (a.step e).cbs → ∃ p' ∈ (a.step e).auth.res, w ∈ p'.2.watchers ∧ p'.2.cache = none) ∧
+    ((⟨w, .ambErr er⟩ : Cb) ∈ (a.step e).cbs → ∃ p' ∈ (a.step e).auth.res, w ∈ p'.2.watchers ∧ p'.2.cache.isSome = true) := by
+  cases e with
+  | update srv gen typ ver es =>
+    simp only [Auth.step]
+    rcases handleUpdate_shape a srv typ ver es with ⟨_, h0⟩ | ⟨_, g, hg, hres, _, hcb⟩
+    · rw [h0]; simp
+    · have key : ∀ k : CbKind, (⟨w, k⟩ : Cb) ∈ (handleUpdate a srv typ ver es).cbs →
+          ∃ p ∈ a.res, w ∈ p.2.watchers ∧ k ∈ updKinds typ ver (ignOf a srv) es p ∧
+            updFull typ ver (ignOf a srv) es (g p) ∈ (handleUpdate a srv typ ver es).auth.res ∧
+            w ∈ (updFull typ ver (ignOf a srv) es (g p)).2.watchers := by
+        intro k hk
+        rw [hcb] at hk
+        obtain ⟨p, hp, hw, hk⟩ := hk
+        have hs := sameCore_of_g hg p
+        refine ⟨p, hp, hw, by rw [← updKinds_sameCore hs]; exact hk, ?_, ?_⟩
+        · rw [hres]; exact List.mem_map_of_mem (List.mem_map_of_mem hp)
+        · rw [(updFull_key ..).2.1, (sameCore_fields hs).2.1]; exact hw
+      constructor
+      · intro h
+        obtain ⟨p, hp, hw, hk, hm, hw'⟩ := key _ h
+        refine ⟨_, hm, hw', ?_⟩
+        have hs := sameCore_of_g hg p
+        have hf := sameCore_fields hs
+        obtain ⟨ht, hcase⟩ := res_mem_updKinds.mp hk
+        have ht' : (g p).1.typ = typ := by rw [hf.1]; exact ht
+        rcases hcase with ⟨hc, t, he, _, _⟩ | ⟨_, he, hsw, hc, hst, hi'⟩
+        · rw [(upd_present ht' (by rw [hf.1]; exact he)).2]
+          simp [updOne, onBad, hf.2.2.1, hc]
+        · rw [(upd_absent ht' (by rw [hf.1]; exact he)).2]
+          have hc' : (g p).2.cache.isNone = false := by rw [hf.2.2.1]; cases hq : p.2.cache <;> simp [hq] at hc ⊢
+          simp [hsw, delOne, hc', hf.2.2.2.1, hst, hi']
+      · intro h
+        obtain ⟨p, hp, hw, hk, hm, hw'⟩ := key _ h
+        refine ⟨_, hm, hw', ?_⟩
+        have hs := sameCore_of_g hg p
+        have hf := sameCore_fields hs
+        obtain ⟨ht, hc, t, he, _, _⟩ := amb_mem_updKinds.mp hk
+        have ht' : (g p).1.typ = typ := by rw [hf.1]; exact ht
+        rw [(upd_present ht' (by rw [hf.1]; exact he)).2]
+        simp [updOne, onBad, hf.2.2.1, hc]
+  | dne k =>
+    simp only [Auth.step, handleDNE, List.mem_flatMap, mem_bcast]
+    constructor
+    · rintro ⟨p, hp, hw, hk⟩
+      split at hk
+      · rename_i hpk
+        refine ⟨_, List.mem_map_of_mem hp, ?_, ?_⟩ <;> simp [hpk, hw]
+      · simp at hk
+    · rintro ⟨p, _, _, hk⟩; split at hk <;> simp at hk
+  | failure srv after =>
+    simp only [Auth.step, handleFailure_cbs]
+    have hsame : after = false ∧ (uncachedWatch a = false ∨ nextServer a srv = none) →
+        (handleFailure a srv after).auth = a := by
+      rintro ⟨rfl, hc⟩
+      unfold handleFailure
+      rcases hc with hc | hc
+      · simp [hc]
+      · by_cases hu : uncachedWatch a = true <;> simp [hu, hc]
+    constructor
+    · intro h
+      split at h
+      · rename_i hc
+        rw [hsame hc]
+        obtain ⟨p, hp, hw, hcache, _⟩ := res_mem_propagate.mp h
+        exact ⟨p, hp, hw, hcache⟩
+      · simp at h
+    · intro h
+      split at h
+      · rename_i hc
+        rw [hsame hc]
+        obtain ⟨p, hp, hw, hcache, _⟩ := amb_mem_propagate.mp h
+        exact ⟨p, hp, hw, hcache⟩
+      · simp at h
+  | watch k w' =>
+    simp only [Auth.step, watch]
+    split
+    · simp [initialCbs, initialKinds, newRState]
+    · rename_i r hl
+      have hm := lookup_mem hl
+      have hmem : addWatcher k w' (k, r) ∈ (a.res.map (addWatcher k w')) := List.mem_map_of_mem hm
+      constructor
+      · intro h
+        simp only [initialCbs, List.mem_map, Cb.mk.injEq] at h
+        obtain ⟨kk, hkk, rfl, rfl⟩ := h
+        refine ⟨_, hmem, by simp [addWatcher], ?_⟩
+        rcases mem_initialKinds_res.mp hkk with ⟨_, hc, _⟩ | ⟨hs, _⟩
+        · simp [addWatcher, hc]
+        · simp only [addWatcher, ↓reduceIte]; exact (hi.rinv _ hm).ne hs
+      · intro h
+        simp only [initialCbs, List.mem_map, Cb.mk.injEq] at h
+        obtain ⟨kk, hkk, rfl, rfl⟩ := h
+        refine ⟨_, hmem, by simp [addWatcher], ?_⟩
+        simp [addWatcher, (mem_initialKinds_amb.mp hkk).1]
+  | unwatch k w' =>
+    simp only [Auth.step, unwatch]
+    split
+    · simp
+    · split
+      · simp
+      · split <;> simp
 
 end GrpcProofs.Lemmas.XdsAuth
